@@ -1,3 +1,4 @@
+\* atomic abstraction: 1..3 workers, <= 4 tasks.  13 962 distinct states.
 CONSTANTS MaxWorkers = 3
           MaxTasks = 4
 SPECIFICATION Spec
